@@ -198,7 +198,7 @@ func cmdCheck(args []string) int {
 	for _, r := range results {
 		if r.Err != "" {
 			name := id + "/" + shortName(r.Key) + "/engine"
-			p := filepath.Join(replayDir, sanitize(name)+".json")
+			p := filepath.Join(replayDir, fileSafe(name)+".json")
 			writeJSON(p, map[string]any{"property": id, "obligation": name, "error": r.Err,
 				"note": "the function could not be brought under the verifier (unsupported construct, stale contract or spec error); reported fail-closed"})
 			if k := isKnown(name); k != nil {
@@ -212,7 +212,7 @@ func cmdCheck(args []string) int {
 		}
 		if len(r.Obligations) == 0 && r.Err == "" {
 			name := id + "/" + shortName(r.Key) + "/vacuous"
-			p := filepath.Join(replayDir, sanitize(name)+".json")
+			p := filepath.Join(replayDir, fileSafe(name)+".json")
 			writeJSON(p, map[string]any{"property": id, "obligation": name, "error": "zero obligations generated"})
 			report(name, p, " no-failing-input-found")
 		}
@@ -231,7 +231,7 @@ func cmdCheck(args []string) int {
 				nKnown++
 				continue
 			}
-			p := filepath.Join(replayDir, sanitize(o.Name)+".json")
+			p := filepath.Join(replayDir, fileSafe(o.Name)+".json")
 			rep := map[string]any{"property": id, "obligation": full, "kind": o.Kind, "where": fmt.Sprintf("%s:%d", o.Pos.Filename, o.Pos.Line),
 				"what": o.Desc, "status": o.Status, "solver_output": o.Output}
 			extra := " no-failing-input-found"
@@ -273,7 +273,7 @@ func cmdCheck(args []string) int {
 		byKind["cover"]++
 		if c.Status != "proved" {
 			full := id + "/" + c.Name
-			p := filepath.Join(replayDir, sanitize(c.Name)+".json")
+			p := filepath.Join(replayDir, fileSafe(c.Name)+".json")
 			writeJSON(p, map[string]any{"property": id, "obligation": full, "error": "contradictory assumptions: function exit unreachable under its preconditions (vacuous proof)"})
 			report(full, p, " no-failing-input-found")
 		}
